@@ -169,10 +169,15 @@ def run_case(args):
                                            why='solver unknown; counterexample found by concrete probing and replayed')
                                 break
                 elif r == 'unsat':
-                    if case.cvc5:
+                    sample = (tier == 'thorough' and int(key[:6], 16) % 20 == (seed % 20) and '__int' not in text)
+                    if case.cvc5 or sample:
+                        # second opinion: cvc5 on the same SMT-LIB text (thorough tier: a deterministic 5 % sample)
                         r2, _, s2, _ = smt.solve(text, min(case.timeout, 60), want_model=False, solver="cvc5")
                         rec['cvc5'] = r2
                         rec['cvc5_seconds'] = round(s2, 3)
+                        if r2 == 'sat':
+                            rec['verdict'] = 'harness-error'
+                            rec['why'] = 'solver disagreement: z3 unsat, cvc5 sat'
                     rec['twin'] = twin_done
                 elif r == 'sat':
                     if case.lemma:
